@@ -1157,7 +1157,7 @@ func TestVerif_C12_uniform(t *testing.T) {
 // afterwards.
 func TestVerif_C12_seq(t *testing.T) {
 	s := verifh.New(t, "C12", "c12seq",
-		"designed sequences x TLS {private root, insecure} x {original, clone after learning}: (a) un-forced+HTTP/3 learns Alt-Svc over h2, then EnableForceHTTP1 / EnableForceHTTP2 / DisableHTTP3 / stays un-forced -> next request; (b) https warm-up, clear-text origin advertising Alt-Svc, next clear-text request; (c) EnableH2C then an https request (force none / h2); (d) EnableForceHTTP3 then DisableHTTP3; (f) Alt-Svc learned AND CONFIRMED by a successful HTTP/3 exchange, then EnableForceHTTP1 / EnableForceHTTP2 (and DisableForceHttpVersion again) -> next request; (e) Alt-Svc learned and confirmed for origin A (3 requests), then one request each to six OTHER origins on the same host / other ports (h2+h1, h1, no ALPN, h2+h1+h3, h1+h3, A's advertising twin); each request compared with Dispatch.route and judged by the oracle")
+		"designed sequences x TLS {private root, insecure} x {original, clone after learning}: (a) un-forced+HTTP/3 learns Alt-Svc over h2, then EnableForceHTTP1 / EnableForceHTTP2 / DisableHTTP3 / stays un-forced -> next request; (b) https warm-up, clear-text origin advertising Alt-Svc, next clear-text request; (c) EnableH2C then an https request (force none / h2); (d) EnableForceHTTP3 then DisableHTTP3; (f) Alt-Svc learned AND CONFIRMED by a successful HTTP/3 exchange, then EnableForceHTTP1 / EnableForceHTTP2 (and DisableForceHttpVersion again) -> next request; (g) an HTTP/2 request to origin A = 127.0.0.1:P whose certificate also names 127.0.0.2, then - connection open - a request (un-forced / EnableForceHTTP2) to ANOTHER origin B = 127.0.0.2:P on the same port {h1-only acceptable certificate, h2+h1 untrusted root}: served by B under the client's settings; (e) Alt-Svc learned and confirmed for origin A (3 requests), then one request each to six OTHER origins on the same host / other ports (h2+h1, h1, no ALPN, h2+h1+h3, h1+h3, A's advertising twin); each request compared with Dispatch.route and judged by the oracle")
 	w, err := c12StartWorld()
 	if err != nil {
 		t.Fatalf("infrastructure: %v", err)
@@ -1309,6 +1309,82 @@ func TestVerif_C12_seq(t *testing.T) {
 				c.GetTransport().CloseIdleConnections()
 			}
 		}
+		// (g) round 7: HTTP/2 connections are per ORIGIN (host:port), whatever names the certificate of an
+		// open connection lists. Origin A = 127.0.0.1:P (h2+h1; its certificate ALSO names 127.0.0.2), an
+		// HTTP/2 request to A; then, with that connection open, a request of the same client to origin
+		// B = 127.0.0.2:P (same port, another server): B h1-only with an acceptable certificate, or B h2+h1
+		// with a certificate from a root the client does not trust; un-forced and after EnableForceHTTP2.
+		// Each request to B is a first contact (nothing cached for B): Dispatch.route with empty state.
+		for _, tc := range []c12TLS{c12TLSCells[1], c12TLSCells[3]} {
+			for _, bkind := range []string{"h1", "untrusted"} {
+				for _, later := range []string{"stay", "force2"} {
+					pki := c12GetPKI()
+					ips := []net.IP{net.ParseIP("127.0.0.1"), net.ParseIP("127.0.0.2")}
+					var a, b *c12Origin
+					var err error
+					for try := 0; try < 5; try++ {
+						a, err = c12StartOriginAt(w.origins["h2h1"][0].offer, "127.0.0.1", 0, pki.cas[0].leaf("origin-a", true, []string{c12SAN}, ips))
+						if err != nil {
+							continue
+						}
+						boffer, bleaf, bname := w.origins["h1"][0].offer, pki.cas[0].leaf("origin-b", true, []string{c12SAN}, ips), "h1"
+						if bkind == "untrusted" {
+							boffer, bleaf, bname = w.origins["h2h1"][0].offer, pki.cas[1].leaf("origin-b-untrusted", true, []string{c12SAN}, ips), "h2h1"
+						}
+						_ = bname
+						b, err = c12StartOriginAt(boffer, "127.0.0.2", a.port, bleaf)
+						if err == nil {
+							break
+						}
+						a.close()
+					}
+					if err != nil {
+						t.Fatalf("infrastructure: two origins on one port of 127.0.0.1 / 127.0.0.2: %v", err)
+					}
+					c := C()
+					c12ApplyTLS(c, tc, "helpers-string", dir)
+					id := c12CellSeq.Add(1)
+					rec := &c12CustomRec{}
+					acell := c12Cell{force: "-", offer: "h2h1", tls: tc, how: "helpers-string", kind: "fresh", custom: "none", scheme: "https"}
+					sa := c12Request(c, a, acell, "-", false, tc, "12", rec, c12ReqState{}, fmt.Sprintf("/q%d/ga", id), &noDials)
+					sa.human = fmt.Sprintf("seq(g:%s:%s) tls=%s: request to origin A = %s (certificate names 127.0.0.1 AND 127.0.0.2)", bkind, later, tc.name, a.url("https", ""))
+					record(sa)
+					if sa.impl == "ok:h2" {
+						force := "-"
+						if later == "force2" {
+							c.EnableForceHTTP2()
+							force = "2"
+						}
+						// the judge's TLS cell for B: the client's settings as they relate to B's certificate
+						jtc := tc
+						bcell := acell
+						bcell.force = force
+						bcell.offer = "h1"
+						if bkind == "untrusted" {
+							bcell.offer = "h2h1"
+							jtc = c12TLSCells[2] // the client's root did not sign B's certificate
+							if tc.insecure {
+								jtc = c12TLSCells[4]
+							}
+						}
+						nb := len(b.seenFor(fmt.Sprintf("/q%d/gb", id)))
+						sb := c12Request(c, b, bcell, force, false, jtc, "12", rec, c12ReqState{}, fmt.Sprintf("/q%d/gb", id), &noDials)
+						sb.human = fmt.Sprintf("seq(g:%s:%s) tls=%s: HTTP/2 connection to A open; request (force=%s) to ANOTHER origin on the same port B = %s (%s, %s)", bkind, later, tc.name, force, b.url("https", ""), b.offer, jtc.name)
+						if strings.HasPrefix(sb.impl, "ok:") && len(b.seenFor(fmt.Sprintf("/q%d/gb", id))) == nb {
+							sb.propOK = false
+							if sb.why == "" {
+								sb.why = "the request to origin B was answered, but B never received it: it was served by another origin's connection"
+							}
+						}
+						record(sb)
+						c12Count(s, "g:same-port-other-host")
+					}
+					c.GetTransport().CloseIdleConnections()
+					a.close()
+					b.close()
+				}
+			}
+		}
 		// (f) forcing changed AFTER the alternative was learned AND CONFIRMED (a successful HTTP/3
 		// exchange moved the entry from the pending map into the jar): the forced version governs;
 		// un-forced again the confirmed entry is used again
@@ -1416,7 +1492,7 @@ func TestVerif_C12_seq(t *testing.T) {
 	for _, st := range pending {
 		flush(*st)
 	}
-	for _, must := range []string{"a:force1", "a:force2", "b:plain-altsvc", "c:h2c-https", "d:force3-disable", "alt-entry-ready", "e:other-origin", "f:forced-after-confirmed"} {
+	for _, must := range []string{"a:force1", "a:force2", "b:plain-altsvc", "c:h2c-https", "d:force3-disable", "alt-entry-ready", "e:other-origin", "f:forced-after-confirmed", "g:same-port-other-host"} {
 		if c12Hist[s][must] == 0 {
 			t.Errorf("never reached bucket %q", must)
 		}
